@@ -762,6 +762,35 @@ def _oracle(ctx, rng):
                      f'{got_b[:8]}... / {got_i[:8]}... are not the vertices of single-neighbour facets and their complement among the '
                      f'{nv2} vertices (the mesh has {m2.p.shape[1]} points)',
                      {'kind': cls.__name__, 'refined': nref, 'table': 'second-order-nodes'})
+    # numbering with gaps (points no cell uses, numbered below the used ones - a loaded file, a hand-made (p, t)): the vertices the
+    # cells use are still partitioned into boundary and interior ones, the boundary ones being those of single-neighbour facets
+    # (whether an unused point counts as "interior" is left open: the statement is about the vertices of the cells)
+    import warnings
+    for kind in KINDS:
+        for _ in range(2):
+            pg, tg, infog = M.gen_raw(rng, kind, maxcells=30, carve=False)
+            nvg = int(np.max(tg)) + 1
+            for k in sorted({1, max(1, nvg // 2), nvg}):
+                p2 = np.hstack([np.full((pg.shape[0], k), -7.0) + np.arange(k)[None, :], np.asarray(pg, dtype=float)[:, :nvg]])
+                t2_ = np.asarray(tg) + k
+                with warnings.catch_warnings():
+                    warnings.simplefilter('ignore')
+                    try:
+                        mg = M.build(kind, p2, t2_, validate=False)
+                    except TypeError:
+                        mg = M.build(kind, p2, t2_)
+                ctx.count(('numbering-gap', kind, k, tg.tolist()), nontrivial=True)
+                facg = np.asarray(mg.facets)
+                want_b = sorted({int(v) for f in range(facg.shape[1]) if mg.f2t[1, f] == -1 for v in facg[:, f]})
+                used = sorted(set(t2_.ravel().tolist()))
+                got_b, got_i = np.asarray(mg.boundary_nodes()).tolist(), np.asarray(mg.interior_nodes()).tolist()
+                missing = [v for v in used if v not in set(got_b) | set(got_i)]
+                both = sorted(set(got_b) & set(got_i))
+                if got_b != want_b or missing or both:
+                    ctx.fail(f'{kind}:numbering-gap-nodes', f'{type(mg).__name__} with {k} unused points numbered below the vertices: boundary_nodes = '
+                             f'{got_b[:8]}... (vertices of single-neighbour facets: {want_b[:8]}...), vertices in neither boundary_nodes nor '
+                             f'interior_nodes: {missing[:8]}, in both: {both[:8]}',
+                             {'kind': kind, 'p': p2.tolist(), 't': t2_.tolist(), 'table': 'numbering-gap-nodes', 'unused_points': k})
     for kind in KINDS:
         for _ in range(2):
             pa, ta, infoa = M.gen_raw(rng, kind, maxcells=8)
